@@ -244,6 +244,8 @@ class ValuesProfile(FieldProfile):
             o = qv.pop(0)
             if o["op"] == "F.construct":
                 return dict(o, out=out) if st.has(o["on"], "M") else {"op": "drop", "on": -1}
+            if isinstance(o.get("spec"), dict) and o["spec"].get("src") == "$last_field":
+                o = dict(o, spec=dict(o["spec"], src=max(fields) if fields else -1))
             return dict(o, out=out) if "out" in o else o
         if not meshes:
             return self.ensure_mesh(rng, st, cfg["max_cells"], cfg["max_subs"])
@@ -251,8 +253,14 @@ class ValuesProfile(FieldProfile):
         if not fields or r < 0.18:
             if fields and rng.random() < 0.35:
                 # a covering mesh for a later field-valued specification
-                cm = draw_cover_mesh(rng, st.h[rng.choice(fields)].box.v)
+                tgt = rng.choice(fields)
+                cm = draw_cover_mesh(rng, st.h[tgt].box.v)
                 if cm is not None:
+                    if st.h[tgt].meta.get("dtype") in (None, "float") and st.h[tgt].fm.array.dtype.kind == "f":
+                        # ... a field on the covering mesh, and the covered field takes its values from it
+                        st.extra.setdefault("queueV", []).extend([
+                            {"op": "F.construct", "on": out, "nvdim": st.h[tgt].fm.nvdim, "dtype": None, "spec": {"t": "array", "a": draw_table(rng)}, "vdims": None, "unit": None},
+                            {"op": "F.update", "on": tgt, "spec": {"t": "field", "src": "$last_field"}, "via": rng.choice(["update", "array"])}])
                     return dict(cm, op="Mesh.new", out=out)
             if rng.random() < 0.15:
                 return self.ensure_mesh(rng, st, cfg["max_cells"], cfg["max_subs"])
@@ -515,12 +523,16 @@ class AlgebraProfile(FieldProfile):
             return spec
         r = rng.random()
         if len(fields) < 2 or r < 0.15:
-            if meshes and rng.random() < 0.15 and len(meshes) < 3:
+            if meshes and rng.random() < 0.2 and len(meshes) < 3:
                 # an equal-but-distinct mesh (same geometry, different object) or another mesh
-                if rng.random() < 0.6:
+                r2 = rng.random()
+                if r2 < 0.45:
                     src = st.extra.get("first_mesh_spec")
                     if src:
                         return dict(src, op="Mesh.new", out=out)
+                if r2 < 0.75:
+                    # same cell counts at another place (or the same place with other subregions)
+                    return dict(draw_twin_spec(rng, st.h[rng.choice(meshes)].box.v), op="Mesh.new", out=out)
                 return self.ensure_mesh(rng, st, cfg["max_cells"], 1)
             ms = rng.choice(meshes)
             o = draw_field_new(rng, ms, out, st.h[ms].box.v, nvdim=rng.choice(cfg["nvdims"]), dtypes=cfg["dtypes"], p_unmapped=0.1, p_scalar_label=0.3)
@@ -579,6 +591,14 @@ class AlgebraProfile(FieldProfile):
             b = rng.choice([s for s in fields if s != a])
             return {"op": "A.reject", "a": a, "b": b, "f": rng.choice(["add", "sub", "mul", "truediv", "dot", "cross", "angle", "lshift", "np.add", "np.multiply", "np.subtract"]), "fault": "rejected_args"}
         r = rng.random()
+        if ha.fm.array.dtype.kind == "c" and rng.random() < 0.15:
+            sm = [s for s in fields if st.h[s].fm.nvdim == ha.fm.nvdim and st.h[s].box.v.key()[:2] == ha.box.v.key()[:2]]
+            return {"op": "A.vecop", "a": a, "b": rng.choice(sm), "f": "dot", "out": out, "operator": rng.random() < 0.3}
+        if rng.random() < 0.05:
+            # stack fields that carry different labels / mappings (merged into the result, never into an operand)
+            oth = [s for s in fields if s != a and st.h[s].box.v.key()[:2] == ha.box.v.key()[:2] and st.h[s].fm.vdims != ha.fm.vdims and st.h[s].fm.nvdim + ha.fm.nvdim <= 6]
+            if oth:
+                return {"op": "A.lshift", "parts": [a, rng.choice(oth)], "out": out}
         if r < 0.12:
             return {"op": "A.unary", "on": a, "f": rng.choice(["neg", "pos", "abs"]), "out": out}
         if r < 0.5:
